@@ -175,6 +175,10 @@ class H1Gen:
         self.features = set()
         self.ended = False
 
+    def mixed_chain(self):
+        """a live frame whose tail-call chain mixes PLT and mcount entries: mcount_rstack_rehook decides its hook"""
+        return any(len(set(f["kinds"])) > 1 for f in self.frames)
+
     def top_slot(self):
         return self.frames[-1]["slot"] if self.frames else 63
 
@@ -206,7 +210,8 @@ class H1Gen:
         orig = self.new_orig()
         d = self.depth()
         self.fid += 1
-        self.frames.append({"slot": slot, "orig": orig, "links": 0 if k == "n" else 1, "id": self.fid, "ver": 0})
+        self.frames.append({"slot": slot, "orig": orig, "links": 0 if k == "n" else 1, "id": self.fid, "ver": 0,
+                            "kinds": [] if k == "n" else [k]})
         if k != "n":
             self.calls.append(d)
         self.emit("CALL %s %d %d %d %d" % (k, child, slot, orig, fpw), pushed=(d if k != "n" else None))
@@ -223,6 +228,7 @@ class H1Gen:
         d = self.depth()
         f["links"] += 1
         f["ver"] += 1
+        f["kinds"] = f["kinds"] + [k]
         self.calls.append(d)
         self.emit("TAIL %s %d %d" % (k, child, f["slot"]), pushed=d)
 
@@ -301,7 +307,7 @@ class H1Gen:
                         fpw = 0
                     if k == "p":
                         self.features.add("excPlt")
-                    if pad["links"] > 1:
+                    if k != "n" and self.mixed_chain():
                         self.features.add("rehook")
                     if slot >= 4 and self.call(k=k, slot=slot, fpw=fpw):
                         if k != "n":
@@ -321,7 +327,7 @@ class H1Gen:
                 fa = pad["slot"] - 1
                 self.emit("CATCH %d" % fa)
                 self.dead_slots = []
-                if pad["links"] > 1:
+                if self.mixed_chain():
                     self.features.add("rehook")
                 return
             # this frame has no handler: keep unwinding
@@ -553,7 +559,7 @@ class E2EGen:
             if r < 0.14:
                 self.op("OP_LEAF")
             elif r < 0.17:
-                self.op("OP_SPIN", rng.randint(20, 200))
+                self.op("OP_SPIN", rng.randint(2000, 9000) if self.calm else rng.randint(20, 200))
             elif r < 0.40 and len(stack) < 12:
                 fn = self.pick_any(stack)
                 kinds = ["OP_CALL", "OP_CALL"]
@@ -635,6 +641,8 @@ class E2EGen:
                     return "returned"
 
     def generate(self):
+        if self.calm:
+            self.op("OP_SPIN", self.rng.randint(4000, 9000))
         self.segment(self.nops, [0, 1], 1, may_exit=True)
         # padding: anything read past the end would be a generator bug
         self.op("OP_EXIT", 42)
@@ -723,6 +731,8 @@ def run_e2e_case(ctx, d, uftrace_src, name, ops, cpp, flavour, opt, alarm=False,
         list(record_opts) + [exe] + args
     p = subprocess.run(cmd, stdout=subprocess.PIPE, stderr=subprocess.PIPE)
     tout, terr = p.stdout.decode("utf-8", "replace"), p.stderr.decode("utf-8", "replace")
+    ma = re.search(r"^ALARMS (\d+)", terr, re.M)
+    res["alarms"] = int(ma.group(1)) if ma else 0
     n_ent, n_tids, n_rest = parse_gt(nout)
     t_ent, t_tids, t_rest = parse_gt(tout)
     res["native_rc"] = nrc
@@ -1063,6 +1073,7 @@ def run(ctx):
         "e2e_programs": len(cases), "e2e_calls_depth_checked": calls_checked, "e2e_failures": e2e_bad,
         "e2e_failures_attributed": e2e_attr, "e2e_probe_passes": e2e_fix,
         "e2e_distribution": {"flavours": flv, "opt": ["-O0", "-O2"], "cpp_share": 0.6, "alarm_every": 5},
+        "e2e_programs_hit_by_sigalrm": sum(1 for r in eres if r.get("alarms", 0) > 0),
         "streams_checked": len(streams), "streams_incoherent": incoherent,
         "fix_flags_detected": fix, "unfixed_findings": sorted(FINDING_OF[f] for f in unfixed),
         "exhaustive": False, "samples": samples,
@@ -1072,7 +1083,7 @@ def run(ctx):
         "WellFormedOp: new frames lie below all live frames; longjmp targets a live setjmp frame; in a landing pad the "
         "callee's frame-pointer word separates unwound from live hooked frames; only unhooked code returns while "
         "in_exception is set",
-        "vforkExec is covered by the executable model and both harnesses, not by c11_instep_invariant",
+        "vforkExec: in c11_instep_invariant and c11_vfork_returns; no depth theorem for it (H1/H5 only)",
         "the -finstrument-functions path (cygprof_dummy return slot) and signal arrival inside the hooks: H5 only",
     ]
     return C.finish(ctx)
